@@ -311,4 +311,9 @@ def run(c, prog, ctx):
     _shapes(c, prog, ops)
     _thresholds(c, prog, ops)
     _ints_and_verify(c, prog, ops)
+    # last clause of the property — "its text form parses back to the same address" — is C06's subject: its rules (payload
+    # layouts, program-length and padding tables of the blech32 reader, prefix matching, variant by version) are evaluated here too
+    if not ctx.get("no_deps"):
+        from . import c06 as _c06
+        c.borrow(_c06, "C06", prog, ctx, lambda rule, k: True, "R6.text-form", 20)
     c.floor("R1.template-table", 10, "ten predicates")
